@@ -403,6 +403,11 @@ def gen_arith(rng, namelist, depth, cfg):
             return ["s", rng.choice(["a", "x y", "v1"])]
         return ["i", rng.choice([4, 5])]
     if k < 0.55 and cfg.get("aggregates", True):
+        if cfg.get("agg1") and rng.random() < 0.5:
+            if rng.random() < 0.4:     # one-argument sum / avg over an attribute
+                return [rng.choice(rm.AGG2),
+                        ["f", rng.choice(cfg.get("attr_refs") or ["x", "cost"])]]
+            return [rng.choice(rm.AGG1), ["f", rng.choice(namelist) + rng.choice(["", ".x"])]]
         return [rng.choice(rm.AGG2), ["f", rng.choice(cfg.get("attr_refs") or ["x", "cost"])],
                 ["f", rng.choice(namelist)]]
     return [rng.choice(rm.ARITH), gen_arith(rng, namelist, depth - 1, cfg),
